@@ -194,6 +194,12 @@ func (r *Reader) eachByte(b byte) {
 
 	//fmt.Printf("state: %v\n", p.state)
 
+	// a status byte abandons an incomplete channel or system common message
+	if midilib.IsStatusByte(b) && (r.state == readerStateWithinChannelMessage || r.state == readerStateWithinSysCommon) {
+		r.issetBf = false
+		r.state = readerStateClean
+	}
+
 	switch r.state {
 	case readerStateInSysEx:
 		//fmt.Println("readerStateInSysEx")
